@@ -410,7 +410,7 @@ def rule_links(ctx, px):
     ctx.ob(R, m.rel, "Namespace(...) constructed only by the factory", ok, f"{sorted(set(ctors))}")
     # build_namespace_tree: every ancestor is indexed and linked to its parent
     bt = px.func(NS, "build_namespace_tree")
-    _ancestors(ctx, R, m, bt)
+    _ancestors(ctx, R, m, bt, px)
     _linking(ctx, R, m, bt)
     # join discipline
     init = px.func(NS, "Namespace.__init__")
@@ -484,7 +484,60 @@ def rule_links(ctx, px):
         ctx.ob(R, m.rel, f"{g.short} :: recurses into every nested namespace, unconditionally", ok, "", g.node.lineno)
 
 
-def _ancestors(ctx, R, m, bt):
+def _every_type_registered(ctx, R, m, bt, px):
+    """each element of the `types` argument is registered exactly once, with the namespace object of its own full namespace"""
+    tparam = bt.node.args.args[0].arg
+    loops = []
+    for lp in ast.walk(bt.node):
+        if isinstance(lp, ast.For) and isinstance(lp.target, ast.Name):
+            it = lp.iter
+            while isinstance(it, ast.Call) and isinstance(it.func, ast.Name) and it.func.id in ("sorted", "list", "tuple", "iter") and len(it.args) == 1 and not it.keywords:
+                it = it.args[0]
+            if isinstance(it, ast.Name) and it.id == tparam:
+                loops.append(lp)
+    regs = [(lp, c) for lp in loops for c in ast.walk(lp) if isinstance(c, ast.Call) and isinstance(c.func, ast.Attribute) and c.func.attr == "_add_data_type"]
+    if len(loops) < 1 or not regs:
+        ctx.ob(R, m.rel, f"{bt.short} :: every type of the input is registered in its namespace", False,
+               f"no `_add_data_type` call inside a loop over the whole `{tparam}` argument", bt.node.lineno)
+        return
+    pm = pyfront.parent_map(bt.node)
+    for lp, c in regs:
+        v = lp.target.id
+        gd = pyfront.guards_of(lp, c) or ()
+        skips = []
+        for b in ast.walk(lp):
+            if isinstance(b, (ast.Break, ast.Continue, ast.Return)):
+                cur = b
+                while id(cur) in pm and not isinstance(pm[id(cur)], (ast.For, ast.While)):
+                    cur = pm[id(cur)]
+                if pm.get(id(cur)) is lp and b.lineno < c.lineno:
+                    skips.append(b)
+        ok = not gd and not skips and bool(c.args) and ast.unparse(c.args[0]) == v
+        ctx.ob(R, m.rel, f"{bt.short} :: every type of the input is registered in its namespace", ok,
+               "" if ok else (f"registration is conditional ({pyfront.guard_terms(gd)})" if gd else
+                              "the loop skips types before registering them" if skips else f"registers `{ast.unparse(c.args[0]) if c.args else '?'}`, not the loop's type") +
+               ": a type that is not registered gets no output path (it is neither generated nor resolvable from other types)", c.lineno)
+        # the receiving namespace: the object for <type>.full_namespace
+        recv = c.func.value
+        src = None
+        if isinstance(recv, ast.Name):
+            for st in ast.walk(lp):
+                if isinstance(st, ast.Assign) and st.lineno < c.lineno:
+                    for t_ in st.targets:
+                        names = [x.id for x in (t_.elts if isinstance(t_, ast.Tuple) else [t_]) if isinstance(x, ast.Name)]
+                        if names and names[0] == recv.id:
+                            src = st.value
+        else:
+            src = recv
+        while isinstance(src, ast.Subscript):
+            src = src.value
+        ok = isinstance(src, ast.Call) and isinstance(src.func, ast.Attribute) and src.func.attr == "get_or_make_namespace" \
+            and [ast.unparse(a) for a in src.args] == [f"{v}.full_namespace"]
+        ctx.ob(R, m.rel, f"{bt.short} :: a type is registered with the namespace named by its own full_namespace", ok,
+               "" if ok else f"receiver comes from `{ast.unparse(src)[:80] if src is not None else '?'}`", c.lineno)
+
+
+def _ancestors(ctx, R, m, bt, px_=None):
     """for each type, every proper prefix of its name components (length >= 1) reaches namespace_index"""
     adds = [c for c in ast.walk(bt.node) if isinstance(c, ast.Call) and isinstance(c.func, ast.Attribute) and c.func.attr in ("add", "update")]
     pm = pyfront.parent_map(bt.node)
@@ -567,6 +620,7 @@ def _ancestors(ctx, R, m, bt):
                 detail = "the ancestor walk is left early"
             break
     ctx.ob(R, m.rel, f"{bt.short} :: every ancestor namespace of a type is indexed", ok, "" if ok else detail, bt.node.lineno)
+    _every_type_registered(ctx, R, m, bt, px_)
     # the loop is skipped only when the namespace already existed
     if ok:
         terms = pyfront.guard_terms(pyfront.guards_of(bt.node, lp) or ())
